@@ -26,23 +26,23 @@ CLAIMS = {
          "real binary built from /repo with --cfg mscript_verif; shim sees libc calls; under injected I/O errors a process that was hit may fail (then nothing downstream is judged), but if it reports success the ordinary oracle applies",
          "deterministic simulation: libc fault-injection shim + seeded GC schedule, differential oracle run vs compile+execute"),
  "C07": ("exploration", "DESIGN.md §4 C07",
-         "An enumerated batch (one captured variable, one use, every syntactic position, owner frame gone, same-named decoy in the caller) and seeded closure histories (creation contexts x <=12 operations) executed by the real binary under seeded collector schedules (0/1%/10%/100% of instructions) and hash seeds, in memory and from files; oracle: line-by-line equality with a reference cell model; every history also varies how the command is invoked (project directory names with #, spaces, non-ASCII, a leading <; --profile/--no-pb/--verbose; RUST_BACKTRACE, TMPDIR, stale PWD).",
+         "An enumerated batch (one captured variable, one use, every syntactic position, owner frame gone, same-named decoy in the caller) and seeded closure histories (creation contexts x <=12 operations) executed by the real binary under seeded collector schedules (0/1%/10%/100% of instructions) and hash seeds, in memory and from files; oracle: line-by-line equality with a reference cell model; every history also varies how the command is invoked (project directory names with #, spaces, non-ASCII, a leading <; --profile/--no-pb/--verbose; RUST_BACKTRACE, TMPDIR, stale PWD). A template batch puts the closures into an imported module (exported bump/peek/mk/shadowed over module state), which is always loaded from its bytecode file. Environments also include project directories that have been lived in: an older revision of the same project really run or compiled there before the judged command, in half of the cases killed at its k-th write/open/read on any file or at a rename, with the file times then set by policy; and entry paths spelled with //, /./, ./, .//.",
          "reference model written from the property statement; generator stays inside the language fragment characterised in DESIGN.md §9",
          "deterministic simulation: seeded GC schedule + hash seeds, history vs reference cell model"),
  "C08": ("exploration", "DESIGN.md §4 C08",
-         "Seeded object histories (<=3 classes, <=15 operations: construct, alias, field read/write, method call, `is`) under seeded collector schedules and hash seeds; oracle: reference heap model; invocation varied as for C07.",
+         "Seeded object histories (<=3 classes, <=15 operations: construct, alias, field read/write, method call, `is`) under seeded collector schedules and hash seeds; oracle: reference heap model; invocation varied as for C07. Environments also include project directories that have been lived in: an older revision of the same project really run or compiled there before the judged command, in half of the cases killed at its k-th write/open/read on any file or at a rename, with the file times then set by policy; and entry paths spelled with //, /./, ./, .//.",
          "reference heap model written from the property statement",
          "deterministic simulation: seeded GC schedule + hash seeds, history vs reference heap model"),
  "C11": ("exploration", "DESIGN.md §4 C11",
-         "Import DAGs over <=5 modules with both import forms and all placements, run in memory and from files with lazy .mmm loads behind the shim (short/EINTR, dirty directory, hash seeds, GC); oracle: enter/leave trace and shared counters equal the import-graph reference model; negative configurations are rejected at compile time; module names that differ only in case, a module called like the entry in a sub-directory, a directory called like a module, 30-60 modules under a descriptor limit of 20-28; invocation varied as for C07.",
+         "Import DAGs over <=5 modules with both import forms and all placements, run in memory and from files with lazy .mmm loads behind the shim (short/EINTR, dirty directory, hash seeds, GC); oracle: enter/leave trace and shared counters equal the import-graph reference model; negative configurations are rejected at compile time; module names that differ only in case, a module called like the entry in a sub-directory, a directory called like a module, 30-60 modules under a descriptor limit of 20-28; invocation varied as for C07. Environments also include project directories that have been lived in: an older revision of the same project really run or compiled there before the judged command, in half of the cases killed at its k-th write/open/read on any file or at a rename, with the file times then set by policy; and entry paths spelled with //, /./, ./, .//.",
          "path spellings kept canonical (aliasing ./a vs a is outside the stated quantifier)",
          "deterministic simulation: libc shim on lazy module loads + seeded GC, trace vs import-graph model"),
  "C13": ("exploration", "DESIGN.md §4 C13",
-         "Seeded list/map operation histories over aliases and clones with boundary indices and callbacks, each under several hash seeds (map iteration order) and collector schedules; oracle: Python sequence / finite-map model, map observations compared order-insensitively; invocation varied as for C07.",
+         "Seeded list/map operation histories over aliases and clones with boundary indices and callbacks, each under several hash seeds (map iteration order) and collector schedules; oracle: Python sequence / finite-map model, map observations compared order-insensitively; invocation varied as for C07. Environments also include project directories that have been lived in: an older revision of the same project really run or compiled there before the judged command, in half of the cases killed at its k-th write/open/read on any file or at a rename, with the file times then set by policy; and entry paths spelled with //, /./, ./, .//.",
          "model adopts observed behaviour where the statement is silent (join drains its argument)",
          "deterministic simulation: hash-seed and GC-schedule sweep, history vs sequence/finite-map model"),
  "C17": ("fault_enumeration", "DESIGN.md §4 C17",
-         "Failure catalogue x frame kinds x depth 0-6 call histories; the simulator places the failure point, owns both output streams (short/EINTR writes, one pipe or two) and judges stdout-prefix durability, exit class, report-after-output order on the global event sequence, and the exact call trace against a call-stack model; project directory names, options (--profile, --no-pb, -X, --verbose), RUST_BACKTRACE, leading blank lines, loop-exit hazards and unwritable artefacts (may fail, may not panic) are part of the environment.",
+         "Failure catalogue x frame kinds x depth 0-6 call histories; the simulator places the failure point, owns both output streams (short/EINTR writes, one pipe or two) and judges stdout-prefix durability, exit class, report-after-output order on the global event sequence, and the exact call trace against a call-stack model; project directory names, options (--profile, --no-pb, -X, --verbose), RUST_BACKTRACE, leading blank lines, loop-exit hazards and unwritable artefacts (may fail, may not panic) are part of the environment. Float divisors that are negative zero (out of arithmetic and out of ceil).",
          "trace label format taken from the implementation (DESIGN.md §9)",
          "deterministic simulation: fault placement along generated call histories, stream interleaving under the shim, call-stack model"),
  "C18": ("exploration", "DESIGN.md §4 C18",
@@ -50,11 +50,11 @@ CLAIMS = {
          "as C04",
          "deterministic simulation: libc fault-injection shim over the transpile pipeline, differential oracle"),
  "C19": ("fault_enumeration", "DESIGN.md §4 C19",
-         "Hand-written bytecode calling a probe library through call_lib: every argument vector of length <=3 over six kinds plus sampled longer ones, three return forms, and the loader faults (library missing, dlopen NULL, symbol missing, dlsym NULL, raised error) injected by the shim; oracle: echoed vector equals the pushed one in order, result pushed, fail-stop with message and no later instruction; library names (search path, backslash, versioned, absent with sibling), a library with an unresolved lazy reference, symbol names of 63-71 characters, multi-line messages, calls 0-40 frames deep, bytecode started from another directory, RUST_BACKTRACE.",
+         "Hand-written bytecode calling a probe library through call_lib: every argument vector of length <=3 over six kinds plus sampled longer ones, three return forms, and the loader faults (library missing, dlopen NULL, symbol missing, dlsym NULL, raised error) injected by the shim; oracle: echoed vector equals the pushed one in order, result pushed, fail-stop with message and no later instruction; library names (search path, backslash, versioned, absent with sibling), a library with an unresolved lazy reference, symbol names of 63-71 characters, multi-line messages, calls 0-40 frames deep, bytecode started from another directory, RUST_BACKTRACE. Libraries whose paths contain #, blanks, colons, @ and ?; a dead stderr (every write to fd 2 fails): the message cannot be demanded then, failure status and fail-stop can.",
          "probe library is a test double built against /repo/bytecode",
          "deterministic simulation: dynamic-loader fault injection (dlopen/dlsym) with a probe library as the foreign peer"),
  "C20": ("fault_enumeration", "DESIGN.md §4 C20",
-         "Directory trees from the property's name set x entry kinds, every readdir permutation of small directories, unlink/readdir/stdout faults and kill points injected by the shim; oracle: before/after snapshot against a set model — safety under every plan, completeness and reported count under fault-free and benign plans; DIR spelled eight ways (also through a symlink), a PWD that names another directory. Project histories: `clean .` / `clean lib` (also killed before its k-th unlink) inside histories of real compiles, runs, edits and killed compiles on a four-module project with a sub-directory; same snapshot oracle.",
+         "Directory trees from the property's name set x entry kinds, every readdir permutation of small directories, unlink/readdir/stdout faults and kill points injected by the shim; oracle: before/after snapshot against a set model — safety under every plan, completeness and reported count under fault-free and benign plans; DIR spelled eight ways (also through a symlink), a PWD that names another directory. Project histories: `clean .` / `clean lib` (also killed before its k-th unlink) inside histories of real compiles, runs, edits and killed compiles on a four-module project with a sub-directory; same snapshot oracle. Hard links (second names of siblings and of a file outside DIR, every listing order); DIR named ~ / ~d with HOME pointing at a decoy; a clean that reports success after a failed system call must have cleaned and counted correctly.",
          "root cannot create a read-only directory, EACCES is injected instead",
          "deterministic simulation: readdir-order and unlink fault injection via libc shim, snapshot vs set model"),
 }
